@@ -141,7 +141,7 @@ def start_mid_send_killer():
 
 def make_callee(inv, idx):
     def body(token, kw):
-        if inv['out'] != 'ok' or not inv['pick'] or inv['kill'] != 'none':
+        if inv['out'] != 'ok' or not inv['pick'] or inv['kill'] != 'none' or set(inv['kw']) & {'tx', 'fun', 'func'}:
             try:
                 dn = os.open(os.devnull, os.O_WRONLY)
                 os.dup2(dn, 2)
@@ -162,6 +162,8 @@ def make_callee(inv, idx):
         if inv['big']:
             pad = b'x' * (PAD_MIDSEND if inv['kill'] == 'mid_send' else PAD_BIG)
         extra = None if inv['pick'] else SC.Unpicklable()
+        if inv.get('unp') and inv['pick']:
+            extra = SC.ExplodesOnLoad()       # dumps() in the child works, loads() in the parent raises
         if inv['kill'] == 'mid_send':
             start_mid_send_killer()
         if inv['out'] == 'die':
@@ -179,11 +181,11 @@ def make_callee(inv, idx):
         return info
 
     if inv['async']:
-        async def callee(token, *, kw):
+        async def callee(token, **kw):
             await asyncio.sleep(0)
             return body(token, kw)
     else:
-        def callee(token, *, kw):
+        def callee(token, **kw):
             return body(token, kw)
     callee.__name__ = 'callee_%d' % idx
     return callee
@@ -288,8 +290,8 @@ async def run_one(idx, inv):
             if inv['via'] == 'deco':
                 deco = M.in_subprocess(callee)
                 wraps_ok = deco.__name__ == callee.__name__ and asyncio.iscoroutinefunction(deco)
-                return await deco(token, kw=inv['kw'])
-            return await M.calculate_in_subprocess(callee, token, kw=inv['kw'])
+                return await deco(token, **inv['kw'])
+            return await M.calculate_in_subprocess(callee, token, **inv['kw'])
         except (KeyboardInterrupt, SystemExit, GeneratorExit) as ex:
             return ESCAPED, ex     # must not reach the event loop of this worker: it would stop it
         finally:
